@@ -453,7 +453,11 @@ pub fn gen_plan(rng: &mut Rng, tier: Tier) -> Plan {
         let nent = (p.classes.len() + p.others.len()) as u64;
         // nest_jar walks the entries twice (index pass, copy pass): about 3 operations per entry and pass
         let span = 8 * nent + 6;
-        p.lazy = Some(crate::simjar::LazyPlan::draw(&mut z, span, 2 * nent));
+        let mut lp = crate::simjar::LazyPlan::draw(&mut z, span, 2 * nent);
+        // a jar that classifies its entries by content and hands classes out under other names than `*.class`
+        // (missed seeded change C14-14: the index pass picked entries by the look of their names)
+        lp.odd_names = z.chance(25);
+        p.lazy = Some(lp);
     }
     if let Some(st) = &p.via_text {
         if f.chance(45) {
